@@ -22,6 +22,7 @@ pub fn def() -> PropDef {
         flavours: &["tokio"],
         outcome: None,
         extra_profiles: &["C01", "C02", "C03", "C04", "C05"],
+        adapt: None,
     }
 }
 
